@@ -91,6 +91,10 @@ def work(job):
         if rnd.random() < 0.4:
             d = rnd.choice(["// breadlog:ignore", "/* breadlog:no-kvp */", "// BREADLOG:NO-KVP"])
             files["src/directives.rs"] = ("fn d() {\n    %s\n    info!(a = 1; \"with directive {}\", 1);\n    warn!(\"plain\");\n}\n" % d).encode()
+        if structured and rnd.random() < 0.5:
+            # statements that never receive an ID although they have none: unusable ref values, ignored statements
+            files["src/unusable.rs"] = ('fn u() {\n    info!(ref = request_id; "unusable one");\n    warn!(a = 1, ref = "x"; "unusable two");\n'
+                                        '    // breadlog:ignore\n    error!("ignored");\n}\n').encode()
         if use_cache is not False and rnd.random() < 0.3 and t.existing:
             lock = core.lock_text(max(t.existing) + 1 + rnd.choice([0, 5]))
     elif kind == "corpus":
